@@ -127,3 +127,27 @@ package signjar
 //@        (hs == 0 ==> sameslice(sec, sections[0])) && (hs == 1 && !sectionsOnly ==> sameslice(sec, manifest))
 //@   on call hashSection(_, _) ret (r): hs = hs + 1
 //@   loop 0 sig "for _, section := range sections[1:]" invariant hs >= 1 && (!sectionsOnly ==> hs >= 2) && len(sections) >= 1
+//@
+//@ func Verify
+//@   property C02
+//@   ghost cms int = 0
+//@   ghost sf int = 0
+//@   ghost mf bool = false
+//@   before call (*pkcs7.SignedData).Verify(_, ext, skip): assert @cms_signature_covers_the_signature_file sameslice(ext, sigfile) && !skip && cms == sf
+//@   on call (*pkcs7.SignedData).Verify(_, _, _) ret (s, e): cms = ite(e == nil, cms + 1, 0 - 1000000)
+//@   before call verifySigFile(sfb, mfb): assert @signature_file_checked_against_the_manifest sameslice(sfb, sigfile) && sameslice(mfb, manifest) && cms == sf + 1
+//@   on call verifySigFile(_, _) ret (h, e): sf = ite(e == nil, sf + 1, 0 - 1000000)
+//@   before call verifyManifest(z, mfb): assert @member_digests_checked_against_the_same_manifest z == inz && sameslice(mfb, manifest)
+//@   on call verifyManifest(_, _) ret (e): mf = (e == nil)
+//@   ensures @every_signature_file_is_cms_verified_and_matched_to_the_manifest_and_members_are_digested_unless_skipped \
+//@        ret1 == nil ==> cms == len(ret0) && sf == len(ret0) && (!skipDigests ==> mf)
+//@   loop 0 sig "for _, f := range inz.File" invariant cms == 0 && sf == 0 && !mf
+//@   loop 1 sig "for base, sigfile := range sigfiles" invariant cms == len(sigs) && sf == len(sigs) && !mf && (sigs == nil || allocated(sigs))
+//@
+//@ func verifyManifest
+//@   property C02
+//@   ghost bad bool = false
+//@   before call hashFile(k, c, suf): assert @member_content_checked_against_its_manifest_section suf == "" && c == iface(r)
+//@   on call hashFile(_, _, _) ret (e): bad = bad || e != nil
+//@   ensures @no_member_digest_mismatch_is_tolerated ret0 == nil ==> !bad
+//@   loop 1 sig "for filename, keys := range parsed.Files" invariant !bad
